@@ -376,7 +376,13 @@ def vvmul(qa, qb):
     qb = base.getvector(qb, 3)
     t6 = math.sqrt(1.0 - np.sum(qa**2))
     t11 = math.sqrt(1.0 - np.sum(qb**2))
-    return np.r_[qa[1] * qb[2] - qb[1] * qa[2] + qb[0] * t6 + qa[0] * t11, -qa[0] * qb[2] + qb[0] * qa[2] + qb[1] * t6 + qa[1] * t11, qa[0] * qb[1] - qb[0] * qa[1] + qb[2] * t6 + qa[2] * t11]
+    v = np.r_[qa[1] * qb[2] - qb[1] * qa[2] + qb[0] * t6 + qa[0] * t11, -qa[0] * qb[2] + qb[0] * qa[2] + qb[1] * t6 + qa[1] * t11, qa[0] * qb[1] - qb[0] * qa[1] + qb[2] * t6 + qa[2] * t11]
+    if t6 * t11 - np.dot(qa, qb) < 0:
+        # the 3-vector form stands for the quaternion with non-negative scalar
+        # part (see q2v): when the scalar part of the product is negative the
+        # same rotation is -v, not v
+        v = -v
+    return v
 
 
 def qpow(q, power):
